@@ -55,6 +55,7 @@ CHECKS = {
             rapid("decoy", "^TestC19Decoy$", 1500, 1),
             rapid("stdlog", "^TestC19StdLog$", 8000, 1),
             rapid("registry", "^TestC19Registry$", 3000, 1),
+            rapid("lists", "^TestC19BuildLists$", 1500, 1),
         ],
         "thorough": [
             plain("regress", "^TestRegressC19"),
@@ -65,6 +66,7 @@ CHECKS = {
             rapid("decoy", "^TestC19Decoy$", 20000, 2, timeout=3000),
             rapid("stdlog", "^TestC19StdLog$", 200000, 2, timeout=3000),
             rapid("registry", "^TestC19Registry$", 40000, 2, timeout=3000),
+            rapid("lists", "^TestC19BuildLists$", 20000, 4, timeout=3000),
             fuzz("fuzz", "^FuzzC19$", "60s"),
         ],
     },
@@ -216,6 +218,7 @@ CHECKS = {
             rapid("crash", "^TestC12Crash$", 80, 2, timeout=150, shrinktime="5s"),
             rapid("tickbusy", "^TestC12TickBusy$", 300, 1, timeout=150, shrinktime="5s"),
             rapid("faults", "^TestC12Faults$", 2000, 1, timeout=150, shrinktime="5s"),
+            rapid("nested", "^TestC12Nested$", 3000, 1, timeout=150, shrinktime="5s"),
         ],
         "thorough": [
             plain("regress", "^TestRegressC12"),
@@ -224,6 +227,7 @@ CHECKS = {
             rapid("crash", "^TestC12Crash$", 300, 10, timeout=3000),
             rapid("tickbusy", "^TestC12TickBusy$", 5000, 2, timeout=3000),
             rapid("faults", "^TestC12Faults$", 60000, 4, timeout=3000),
+            rapid("nested", "^TestC12Nested$", 100000, 4, timeout=3000),
         ],
     },
     "C13": {
